@@ -1,7 +1,7 @@
 //@file src/append/rolling_file/policy/compound/roll/fixed_window.rs
 //@harness c07_rotate_b0_c1 unwind=14 strength=bounded bound="base=0,count=1; pattern {}; every initial directory over slots 0..9 + active + bystander, any contents; a fault at any move" timeout=1500 body=body_b0_c1
-//@harness c07_rotate_b0_c3 unwind=14 strength=bounded bound="base=0,count=3; same" timeout=1500 body=body_b0_c3
-//@harness c07_rotate_b1_c2 unwind=14 strength=bounded bound="base=1,count=2; same" timeout=1500 body=body_b1_c2
+//@harness c07_rotate_b0_c3 unwind=14 strength=bounded bound="base=0,count=3; same" timeout=1500 body=body_b0_c3 tier=thorough
+//@harness c07_rotate_b1_c2 unwind=14 strength=bounded bound="base=1,count=2; same" timeout=1500 body=body_b1_c2 tier=thorough
 //@harness c07_rotate_b1_c3 unwind=14 strength=bounded bound="base=1,count=3; same" timeout=1500 body=body_b1_c3
 //@harness c07_rotate_b3_c4 unwind=14 strength=bounded bound="base=3,count=4; same" timeout=2400 body=body_b3_c4 tier=thorough
 //@harness c07_rotate_b0_c5 unwind=14 strength=bounded bound="base=0,count=5; same" timeout=2400 body=body_b0_c5 tier=thorough
@@ -40,6 +40,8 @@ mod __verif_c07 {
         }
     }
     pub(crate) fn model_mkdir<P: AsRef<Path>>(_p: P) -> io::Result<()> { Ok(()) }
+    // rotate() itself has no business removing files: if a variant does, the model directory shows the effect
+    pub(crate) fn model_rm<P: AsRef<Path>>(p: P) -> io::Result<()> { unsafe { let s = slot(p.as_ref()); if FS[s].is_none() { return Err(io::Error::from(io::ErrorKind::NotFound)); } FS[s] = None; Ok(()) } }
 
     pub(crate) fn rotate_body(src: &mut Src, base: u32, count: u32) {
         let mut old: [Option<u8>; 12] = [None; 12];
@@ -66,6 +68,16 @@ mod __verif_c07 {
                 if old[b + j - 1].is_some() { __verif_ob!("rotate#post index base+j holds what base+j-1 held", new[b + j] == old[b + j - 1]); }
                 else { __verif_ob!("rotate#post a gap invents nothing", new[b + j].is_none() || new[b + j] == old[b + j]); }
                 j += 1;
+            }
+            // nothing but the oldest archive may disappear: every other chunk is still in the window
+            let mut s0 = 0usize;
+            while s0 < 12 {
+                if (s0 == 10 || (s0 >= b && s0 + 1 < b + c)) && old[s0].is_some() {
+                    let mut found = false; let mut t = b;
+                    while t < b + c { if new[t] == old[s0] { found = true; } t += 1; }
+                    __verif_ob!("rotate#post every chunk except the oldest archive is retained", found);
+                }
+                s0 += 1;
             }
         } else {
             // C08: a failed step loses nothing that the completed rotation would retain
@@ -145,9 +157,11 @@ mod __verif_c07 {
     pub(crate) static mut COPY_OK: bool = true;
     pub(crate) static mut RM_OK: bool = true;
     pub(crate) static mut CALLS: [u8; 3] = [0; 3];
-    pub(crate) fn m_rename<P: AsRef<Path>, Q: AsRef<Path>>(_a: P, _b: Q) -> io::Result<()> { unsafe { CALLS[0] += 1; match RENAME { 0 => Ok(()), 1 => Err(io::Error::from(io::ErrorKind::NotFound)), _ => Err(io::Error::from(io::ErrorKind::PermissionDenied)) } } }
-    pub(crate) fn m_copy<P: AsRef<Path>, Q: AsRef<Path>>(_a: P, _b: Q) -> io::Result<u64> { unsafe { CALLS[1] += 1; if COPY_OK { Ok(0) } else { Err(io::Error::from(io::ErrorKind::Other)) } } }
-    pub(crate) fn m_rm<P: AsRef<Path>>(_a: P) -> io::Result<()> { unsafe { CALLS[2] += 1; if RM_OK { Ok(()) } else { Err(io::Error::from(io::ErrorKind::Other)) } } }
+    pub(crate) static mut ARGS_OK: bool = true;
+    fn is1(p: &Path, c: u8) -> bool { let b = p.as_os_str().as_encoded_bytes(); b.len() == 1 && b[0] == c }
+    pub(crate) fn m_rename<P: AsRef<Path>, Q: AsRef<Path>>(_a: P, _b: Q) -> io::Result<()> { unsafe { CALLS[0] += 1; if !(is1(_a.as_ref(), b'a') && is1(_b.as_ref(), b'b')) { ARGS_OK = false; } match RENAME { 0 => Ok(()), 1 => Err(io::Error::from(io::ErrorKind::NotFound)), _ => Err(io::Error::from(io::ErrorKind::PermissionDenied)) } } }
+    pub(crate) fn m_copy<P: AsRef<Path>, Q: AsRef<Path>>(_a: P, _b: Q) -> io::Result<u64> { unsafe { CALLS[1] += 1; if !(is1(_a.as_ref(), b'a') && is1(_b.as_ref(), b'b')) { ARGS_OK = false; } if COPY_OK { Ok(0) } else { Err(io::Error::from(io::ErrorKind::Other)) } } }
+    pub(crate) fn m_rm<P: AsRef<Path>>(_a: P) -> io::Result<()> { unsafe { CALLS[2] += 1; if !(is1(_a.as_ref(), b'a') || is1(_a.as_ref(), b'f')) { ARGS_OK = false; } if RM_OK { Ok(()) } else { Err(io::Error::from(io::ErrorKind::Other)) } } }
 }
 
 #[cfg(kani)]
@@ -161,6 +175,7 @@ mod __verif_c07_k {
         #[kani::unwind(14)]
         #[kani::stub(move_file, model_move)]
         #[kani::stub(std::fs::create_dir_all, model_mkdir)]
+        #[kani::stub(std::fs::remove_file, model_rm)]
         fn $name() { let mut src = Src::new(); $body(&mut src); }
     } }
     #[kani::proof]
@@ -184,11 +199,12 @@ mod __verif_c07_k {
     fn c07_move_file() {
         let rn: u8 = kani::any(); kani::assume(rn <= 2);
         let c: bool = kani::any(); let r: bool = kani::any();
-        unsafe { RENAME = rn; COPY_OK = c; RM_OK = r; CALLS = [0; 3]; }
+        unsafe { RENAME = rn; COPY_OK = c; RM_OK = r; CALLS = [0; 3]; ARGS_OK = true; }
         let res = move_file("a", "b");
         let calls = unsafe { CALLS };
         kani::cover!(rn == 2 && !c, "cross-device fallback whose copy fails");
         assert!(calls[0] == 1, "move_file#post exactly one rename attempt");
+        assert!(unsafe { ARGS_OK }, "move_file#post rename and copy go from src to dst, and only src is ever removed");
         if rn <= 1 {
             assert!(res.is_ok(), "move_file#post rename Ok or NotFound => Ok");
             assert!(calls[1] == 0 && calls[2] == 0, "move_file#post no fallback after rename Ok / NotFound");
